@@ -54,7 +54,7 @@ def npInterp (x : α) (xp fp : List α) : Option α :=
 end interp
 
 /-- what the user handed over (`Tparameters`): nothing, a number, (hours, kelvin) break points or a
-callable.  `β` is the type of what a call returns (`α` for precipitation, `List α` for diffusion). -/
+callable.  `φ` is the type of the callable (`α → α` for precipitation, `List α → α → List α` for diffusion). -/
 inductive Spec (α φ : Type) where
   | unset
   | iso (T : α)
@@ -89,7 +89,7 @@ def setParams (s : PState α) : Args α (α → α) → PState α
   | .func f => s.setFn f
   | .other => { s with spec := .unset }
 
-/-- the constructor as it is now (after the repair of D-C13-ctor): flag first, then the arguments -/
+/-- the constructor as it is now (after the repair of D-C13-ctor, /repo 8d2efd8): flag first, then the arguments -/
 def ctor (a : Args α (α → α)) : PState α := setParams { spec := .unset, isIso := true } a
 
 /-- the constructor as it was before the repair: arguments first, then `_isIsothermal = True` -/
